@@ -34,11 +34,15 @@
 (*                 ("snap" snapshotHandler, "resume" resumeStreamHandler,     *)
 (*                 "stream" eventStreamHandler), snapshotHandler.events       *)
 (*   ttl    snapCacheTTL # 0 ; ridx: raft index of the last Restore (0 none)  *)
+(*   deny   [token -> set of ACL keys]: what each subscriber's token may NOT   *)
+(*          read (a token without an entry reads everything)                   *)
 (*   wild   topics registered with supportsWildcard                           *)
 (* An item is [k, idx, evs]: k = "ev" (one Append of events of one raft       *)
 (* index, also used for snapshot content), "eos" (endOfSnapshot), "nstf"      *)
-(* (newSnapshotToFollow); an event is [topic, subj, op, id, v] with op "reg"  *)
-(* (register / upsert of id with content v) or "dereg" (deregister / delete). *)
+(* (newSnapshotToFollow); an event is [topic, subj, op, id, v, ak] with op     *)
+(* "reg" (register / upsert of id with content v) or "dereg" (deregister /    *)
+(* delete); ak is the name the ACL check of the payload is made on            *)
+(* (Payload.HasReadPermission: the service / config entry name).              *)
 (*                                                                           *)
 (* Operators that exist in two variants take a record g = [gap, restore] of   *)
 (* booleans:  FALSE = what the code at hand does ;  TRUE = the property-       *)
@@ -115,7 +119,7 @@ SubscribeOp(s, c, topic, subj, tok, from, q) ==
       cached == \E x \in s.cache : Same(x, ts)
       sidx == IF q.idx = 0 THEN 1 ELSE q.idx
       snap == [i \in 1..Len(q.rows) |->
-                 Item("ev", sidx, <<[topic |-> topic, subj |-> subj, op |-> "reg", id |-> q.rows[i].id, v |-> q.rows[i].v]>>)]
+                 Item("ev", sidx, <<[topic |-> topic, subj |-> subj, op |-> "reg", id |-> q.rows[i].id, v |-> q.rows[i].v, ak |-> q.rows[i].ak]>>)]
       tail == IF tb.last.k # "none" /\ tb.last.idx > sidx THEN <<tb.last>> ELSE <<>>
       fresh == snap \o <<Item("eos", sidx, <<>>)>> \o tail
       body == IF cached THEN (CHOOSE x \in s.cache : Same(x, ts)).pend ELSE fresh
@@ -146,14 +150,24 @@ Stale(x, it, g) == it.k = "ev" /\ x.snapidx > 0 /\ ((g.gap /\ it.idx < x.snapidx
 RECURSIVE DropStale(_, _, _)
 DropStale(x, p, g) == IF p # <<>> /\ Stale(x, Head(p), g) THEN DropStale(x, Tail(p), g) ELSE p
 
+(* Payload.HasReadPermission with the subscriber's authorizer (submatview LocalMaterializer.subscribeOnce,
+   grpc subscribe endpoint): the subscriber materializes only what its token may read.  A batch
+   (stream.PayloadEvents) is filtered event by event INTO A COPY - the item is shared by every
+   subscriber of the subject; a delivery of which nothing is readable is dropped before the handler. *)
+Sees(s, tok, e) == ~(tok \in DOMAIN s.deny /\ e.ak \in s.deny[tok])
+Readable(s, tok, evs) == SelectSeq(evs, LAMBDA e : Sees(s, tok, e))
+ReadableRows(s, tok, rows) == {[id |-> r.id, v |-> r.v] : r \in {r \in rows : Sees(s, tok, r)}}
+
 (* submatview/handler.go (snapshotHandler.handle, eventStreamHandler, resumeStreamHandler) and
    materializer.go updateView (`m.index = index`, unconditionally) / reset *)
-Deliver(x, it) ==
-  CASE it.k = "nstf" /\ x.mode = "resume" -> [x EXCEPT !.view = {}, !.vidx = 0, !.mode = "snap", !.acc = <<>>]
+Deliver(s, x, it) ==
+  LET evs == Readable(s, x.tok, it.evs) IN
+  CASE it.k = "ev" /\ evs = <<>> -> x      \* nothing readable: `continue` in front of the handler
+    [] it.k = "nstf" /\ x.mode = "resume" -> [x EXCEPT !.view = {}, !.vidx = 0, !.mode = "snap", !.acc = <<>>]
     [] it.k = "eos" /\ x.mode = "snap" -> [x EXCEPT !.view = ApplyEvs(@, x.acc), !.vidx = it.idx, !.mode = "stream",
                                                     !.acc = <<>>, !.snapidx = it.idx]
-    [] it.k = "ev" /\ x.mode = "snap" -> [x EXCEPT !.acc = @ \o it.evs]
-    [] it.k = "ev" -> [x EXCEPT !.view = ApplyEvs(@, it.evs), !.vidx = it.idx, !.mode = "stream"]
+    [] it.k = "ev" /\ x.mode = "snap" -> [x EXCEPT !.acc = @ \o evs]
+    [] it.k = "ev" -> [x EXCEPT !.view = ApplyEvs(@, evs), !.vidx = it.idx, !.mode = "stream"]
     [] OTHER -> x       \* a framing event where the protocol has none: unreachable
 
 (* subscription.go Next (one call) followed by the materializer's handler for the returned event.
@@ -165,7 +179,7 @@ NextOp(s, c, g) ==
   IF x.state # "open" THEN [st |-> s, res |-> [k |-> "closed", why |-> x.state, item |-> NoItem]]
   ELSE LET p == DropStale(x, x.pend, g) IN
        IF p = <<>> THEN [st |-> [s EXCEPT !.cl[c].pend = <<>>], res |-> [k |-> "blocked", why |-> "", item |-> NoItem]]
-       ELSE [st |-> [s EXCEPT !.cl[c] = Deliver([x EXCEPT !.pend = Tail(p)], Head(p))],
+       ELSE [st |-> [s EXCEPT !.cl[c] = Deliver(s, [x EXCEPT !.pend = Tail(p)], Head(p))],
              res |-> [k |-> "data", why |-> "", item |-> Head(p)]]
 
 (* subscription.go Unsubscribe (state changes only if still open) + the freeBuf closure of EventPublisher.Subscribe: drop the reference;
@@ -201,9 +215,10 @@ RefreshOp(s, g) ==
 Claims(x) == \/ x.mode = "stream"
              \/ x.mode = "resume" /\ x.vidx > 0 /\ x.state = "open" /\ (x.pend = <<>> \/ Head(x.pend).k # "nstf")
 
-\* ViewExact: what the subscriber holds is exactly a direct query result at the delivered index
-\* (atVidx = the set of results a direct query can have returned at index x.vidx; one element unless
-\* the store changed the result without moving the query's index)
+\* ViewExact: what the subscriber holds is exactly a direct query result at the delivered index, as far
+\* as the subscriber's token may read it (atVidx = the set of results, already restricted with
+\* ReadableRows, a direct query can have returned at index x.vidx; one element unless the store
+\* changed the result without moving the query's index)
 ViewExact(x, atVidx) == Claims(x) => x.view \in atVidx
 
 \* IdxMonotone: a delivery that updates the view never carries an index below what this subscription
